@@ -12,6 +12,13 @@
 //! values of every host call) and the same result. A difference is a
 //! violation of the property on the real code; it is minimised and reported
 //! with the source, the arguments and both traces.
+//!
+//! IR-level tie: for every function of every program the structured lowering
+//! model (`RotoV.LowerS`, laid out as a CFG by the driver, `c08 mir`) is compared
+//! with the real post-DCE MIR (hook `verif_hooks::c08::dump`), instruction by
+//! instruction; a difference is a model mismatch (the tie is broken).
+//!
+//!        c08 mir '<source>'         — print the real MIR text of a script
 
 #[path = "../c08/ast.rs"]
 mod ast;
@@ -362,10 +369,6 @@ fn events(ans: &str) -> Vec<&str> {
         Some((_, t)) => t.split(' ').filter(|s| !s.is_empty()).collect(),
         None => vec![],
     }
-}
-
-fn outcome(ans: &str) -> &str {
-    ans.split_once(';').map(|(o, _)| o.trim()).unwrap_or(ans)
 }
 
 /// What kind of difference: used in the `what` text and the key.
